@@ -1,6 +1,8 @@
 """C16 - Bankruptcy is detected, clean and terminal"""
 from pyvc.runner import func
 
+UPDATE_ALL = [func("bt.core.StrategyBase.update", variant=v) for v in ("flat", "paper", "nested", "nested-paper")]
+
 ID = "C16"
 META = {
     "assumptions": ['A-REAL', 'A-COMM', 'A-T', 'A-IND', 'A-DATA-NONE', 'A-CYTHON', 'A-SOLVER', 'A-ENGINE'],
@@ -8,14 +10,14 @@ META = {
 }
 MANIFEST_ENTRY = {
     "level_text": 'Deductive proof of the flag condition (both directions) on all exits of update.',
-    "level_note": "Reals not floats; liquidation (flatten/close/allocate(-value)) and the terminal behaviour of Backtest.run are not yet under contract; update variant 'flat'.",
+    "level_note": "Reals not floats; liquidation (flatten/close/allocate(-value)) and the terminal behaviour of Backtest.run are not yet under contract.",
     "technique": "contract-based deductive verification: VCs from the real AST (pyvc) discharged by z3/cvc5; loop invariants with ghost sums; lemmas over contract clauses",
 }
 
 
 def tasks(tier, seed):
     return [
-        func("bt.core.StrategyBase.update", variant="flat"),
+        *UPDATE_ALL,
     ]
 
 
